@@ -17,6 +17,7 @@ from engine.th import TH
 from spec.seq import N, Seq
 
 PROPERTY = "C29"
+HISTORY_LEMMAS = ['queue_history']  # lemmas/History.lean: one-cycle contracts => history-level statement (Lean 4)
 LEVEL = "proof"
 ASSUMPTIONS = ["payload shapes 1-3 bits; unbounded in handshake/write/read histories"]
 
